@@ -53,7 +53,26 @@ def merge(results):
     return out
 
 
+def abbreviate(obj, max_items=6, max_str=160):
+    """Samples are written out in full unless they are very large: long lists keep their first items and say
+    how many were left out (the complete case is what replay files hold)."""
+    if isinstance(obj, dict):
+        return {k: abbreviate(v, max_items, max_str) for k, v in obj.items()}
+    if isinstance(obj, (list, tuple)):
+        out = [abbreviate(v, max_items, max_str) for v in obj[:max_items]]
+        if len(obj) > max_items:
+            out.append(f"... {len(obj) - max_items} more")
+        return out
+    if isinstance(obj, str) and len(obj) > max_str:
+        return obj[:max_str] + f"... ({len(obj)} chars)"
+    return obj
+
+
 def write(ident, mod, tier, seed, merged, wall, violations, known_hits, replayed, timeouts, specs):
+    for smp in merged["samples"]:
+        if len(json.dumps(smp, default=str)) > 3000:
+            smp["case"] = abbreviate(smp.get("case"))
+            smp["abbreviated"] = True
     cov = {
         "evaluations": merged["evaluations"],
         "distinct_nontrivial": merged["distinct_nontrivial"],
